@@ -184,6 +184,7 @@ class Ring:
         self.rel = {}  # var -> (k, Poly): var^k -> Poly
         self.nonneg = set()  # var indices known >= 0
         self.positive_polys = set()  # Poly keys declared nonneg by a sort/contract ("requires")
+        self.positive_list = []  # the same polynomials (for "declared q >= 0, p = q + positive constant" inferences)
         self.roots = {}  # normalised radicand key -> Poly/Frac value of its sqrt
         self.signs = {}  # normalised poly key -> sign var
         self.trig = {}  # angle var -> (s var, c var)
@@ -461,10 +462,16 @@ class Ring:
         for i, (kk, q) in self.rel.items():
             if kk == 2 and q.key() == k:
                 return True
+        # p = q + c with q declared non-negative and c a non-negative constant
+        for q in self.positive_list:
+            d = p - q
+            if d.is_const() and d.const_value() >= 0:
+                return True
         return False
 
     def declare_nonneg(self, p: Poly):
         self.positive_polys.add(p.key())
+        self.positive_list.append(p)
 
     # ---- printing ----
     def show(self, p: Poly, maxterms=12):
